@@ -1,0 +1,22 @@
+//go:build verif
+
+package grammar
+
+// The three unexported steps of ChomskyNormalForm (START, TERM, BIN), exported for the verification
+// harness (/verif) so that each step can be compared with its model separately. They only call the
+// step; nothing else is read or written.
+
+// VerifEliminateStartSymbolFromRight calls g.eliminateStartSymbolFromRight().
+func VerifEliminateStartSymbolFromRight(g *CFG) *CFG {
+	return g.eliminateStartSymbolFromRight()
+}
+
+// VerifEliminateNonSolitaryTerminals calls g.eliminateNonSolitaryTerminals().
+func VerifEliminateNonSolitaryTerminals(g *CFG) *CFG {
+	return g.eliminateNonSolitaryTerminals()
+}
+
+// VerifEliminateNonBinaryProductions calls g.eliminateNonBinaryProductions().
+func VerifEliminateNonBinaryProductions(g *CFG) *CFG {
+	return g.eliminateNonBinaryProductions()
+}
